@@ -1,5 +1,6 @@
 import GixModel.Lemmas.C09Build
 import GixModel.Lemmas.C09Midx
+import GixModel.Lemmas.C09MidxWinner
 import GixModel.Lemmas.C09Bytes
 /-
 C09 — Pack and multi-pack index lookups agree with a linear scan.  PROPERTY THEOREMS ONLY.
@@ -327,15 +328,22 @@ theorem midx_lookup_prefix_eq_linear (packs : List PackIn) (hp : Packs packs) (i
   · simp only [Midx.lookupPrefix, hn, Option.bind_eq_bind, Option.bind_some]; exact hw
   · simp only [Midx.lookupPrefix, hn, Option.bind_eq_bind, Option.bind_some]; exact hwo
 
-/-- What is NOT proved (kept visible): *which* copy of an id that several packs hold the
-multi-pack index records — `write_from_index_paths` keeps the one from the index file with the
-newest mtime, ties broken by the lowest pack index. `midx_lookup_eq_linear` only shows that the
-recorded (pack, offset) is a real entry of the named pack. The rule is checked against the real
-code by the harness' oracle on every `midx` case. (Also not modelled: the byte layout of the
-multi-pack index chunk file; the V1 index reader is modelled and tied but has no theorem.) -/
-def C09_full : Prop :=
-  ∀ (packs : List PackIn), Packs packs → ∀ e ∈ midxEntries packs, ∀ p, packs[e.pack]? = some p →
-    ∀ j q off, packs[j]? = some q → (e.id, off) ∈ q.entries →
-      q.mtime < p.mtime ∨ (q.mtime = p.mtime ∧ e.pack ≤ j)
+/-- Which copy of an id that several packs hold the multi-pack index records: the one from the
+index file with the newest mtime, ties broken by the lowest pack index (the order of
+`entries.sort_by(…)` followed by `dedup_by_key`). Together with `midx_lookup_eq_linear` this pins
+down the reported (pack, offset) completely when ids are distinct within each pack. -/
+theorem midx_newest_wins (packs : List PackIn) (e : MEntry) (he : e ∈ midxEntries packs)
+    (p : PackIn) (hp : packs[e.pack]? = some p)
+    (j : Nat) (q : PackIn) (off : Nat) (hq : packs[j]? = some q) (hin : (e.id, off) ∈ q.entries) :
+    q.mtime < p.mtime ∨ (q.mtime = p.mtime ∧ e.pack ≤ j) :=
+  midx_winner packs e he p hp j q off hq hin
+
+/-- …and `packAndOffsetAt i` reports exactly the `i`-th of these entries -/
+theorem midx_entry_at (packs : List PackIn) (hp : Packs packs) :
+    ∃ x, midxBuild packs = some x ∧ x.ids = (midxEntries packs).map (·.id) ∧
+      ∀ i (h : i < (midxEntries packs).length),
+        x.packAndOffsetAt i = some ((midxEntries packs)[i].pack, (midxEntries packs)[i].offset) := by
+  obtain ⟨x, hb, hids, _, _, hat⟩ := midxBuild_spec packs hp.len20 hp.collect_small
+  exact ⟨x, hb, hids, hat⟩
 
 end GixModel.Props.C09
